@@ -5,6 +5,10 @@ L2: the ordered state-changing commands of the real write (= the crash schedule)
     fresh reader reports on the memory after every cut are compared with the Lean model.
 L3: for every k the simulated tag loses power when state-changing command k+1 arrives; a fresh
     activation on that memory is classified: none / old / empty / not readable / new - or corrupt.
+Histories (histories34): assignments through ONE tag object, a fault on every Write / UPDATE BINARY position - not
+    executed (lost, error status) or executed but unacknowledged -, follow-up assignments undisturbed or disturbed
+    again: theorems t3_history_cut_safe / t3_retry_cut_safe / t4_history_cut_safe / t4_retry_cut_safe, tie with the
+    models Hist.t3History / Hist.t4History (drv_c02) and oracle after EVERY attempt (Type 3, Type 4, emulated Type 3).
 """
 from common import Model, hx, exc_name
 from sims import t34_lib as T
@@ -316,8 +320,8 @@ def histories34(ck, lays, var):
     from sims.c02_hist import HistRun, MODES
     rng = ck.rng
     model = Model("drv_c02")
-    limit = 30 if ck.thorough else 6
-    n3, n4 = (12, 14) if ck.thorough else (3, 4)
+    limit = 40 if ck.thorough else 6
+    n3, n4 = (24, 28) if ck.thorough else (3, 4)
     pool3 = [lay for lay in lays if lay.kind == "t3" and not (lay.nbw == 13 and lay.nmaxb > 255)]
     pool4 = [lay for lay in lays if lay.kind == "t4" and lay.mfs <= 1000]
     small = [lay for lay in pool4 if lay.mlc < lay.nl][:1]
@@ -364,7 +368,7 @@ def histories34(ck, lays, var):
                     m2 = rng.choice(MODES[kind])
                     add(HistRun(kind, lay, [(d1, (k, mode)), (d2, (rng.randrange(0, 4), m2)), (rng.choice(pool), None)]), lay,
                         "hist:%s:2-faults:%s+%s" % (kind, mode, m2))
-            for _ in range(6 if ck.thorough else 2):
+            for _ in range(12 if ck.thorough else 2):
                 atts, d = [], d1
                 for _i in range(rng.choice([2, 3, 4])):
                     atts.append((d, (rng.randrange(0, max(1, ncmd)), rng.choice(MODES[kind]))))
